@@ -107,6 +107,7 @@ pub fn oracle_sx(ast: &full_moon::ast::Ast, std: &StandardLibrary) -> Sx {
     names.dedup();
     let has: Vec<Sx> = names.iter().filter(|n| std.global_has_fields(n)).map(st).collect();
     let mut wo: Vec<Sx> = Vec::new();
+    let mut mu: Vec<Sx> = Vec::new();
     for (_, c) in sm.function_calls.iter() {
         if let Some(selene_lib::standard_library::Field {
             field_kind: selene_lib::standard_library::FieldKind::Function(f),
@@ -118,9 +119,12 @@ pub fn oracle_sx(ast: &full_moon::ast::Ast, std: &StandardLibrary) -> Sx {
                     wo.push(list(vec![list(c.call_name_path.iter().map(st).collect()), num(i)]));
                 }
             }
+            if f.must_use {
+                mu.push(list(c.call_name_path.iter().map(st).collect()));
+            }
         }
     }
-    list(vec![list(has), list(wo)])
+    list(vec![list(has), list(wo), list(mu)])
 }
 
 pub fn programs(args: &Args, out: &mut Out, rng: &mut Rng, corpus_dir: &str) -> Vec<(String, String)> {
@@ -184,7 +188,7 @@ pub fn run(args: &Args, out: &mut Out) {
             continue;
         }
         let result = std::panic::catch_unwind(std::panic::AssertUnwindSafe(|| {
-            let codes = ["undefined_variable", "unused_variable", "shadowing"];
+            let codes = ["undefined_variable", "unused_variable", "shadowing", "must_use"];
             (
                 tables_sx(&ast, &d),
                 list(vec![
@@ -199,7 +203,7 @@ pub fn run(args: &Args, out: &mut Out) {
                 let oracle = oracle_sx(&ast, &std51);
                 out.case("SCOPE.tables", &list(vec![chunk, st(&origin), st(&src), oracle]), &list(vec![tables, diags]))
             }
-            Err(_) => out.case("SCOPE.tables", &list(vec![chunk, st(&origin), st(&src), list(vec![list(vec![]), list(vec![])])]), &atom("panic")),
+            Err(_) => out.case("SCOPE.tables", &list(vec![chunk, st(&origin), st(&src), list(vec![list(vec![]), list(vec![]), list(vec![])])]), &atom("panic")),
         }
     }
 }
